@@ -233,29 +233,30 @@ func producedCodes(c *Check, p *Prog) map[string]bool {
 		if !ok {
 			continue
 		}
-		lit := structLitAlloc(ret.Results[0])
-		if lit == nil {
+		views := p.returnedLits(ret.Results[0], ctx, 2)
+		if views == nil {
 			out["?"] = true
 			continue
 		}
-		st := litStores(lit)
-		if v := st["BaseResult.Code"]; len(v) == 1 {
-			all := true
-			for _, t := range flattenPhi(TermOf(v[0], ctx).unconv()) {
-				t = t.unconv()
-				if name, ok := byVal[t.Name]; ok && t.Op == "const" {
-					out[name] = true
-				} else if t.Op == "phi" {
-					// cycle marker
-				} else {
-					all = false
+		for _, lv := range views {
+			all := false
+			if v := lv.Field("BaseResult.Code"); len(v) == 1 {
+				all = true
+				for _, t := range flattenPhi(v[0].unconv()) {
+					t = t.unconv()
+					if name, ok := byVal[t.Name]; ok && t.Op == "const" {
+						out[name] = true
+					} else if t.Op == "phi" {
+						// cycle marker
+					} else {
+						all = false
+					}
 				}
 			}
-			if all {
-				continue
+			if !all {
+				out["?"] = true
 			}
 		}
-		out["?"] = true
 	}
 	if out["?"] {
 		c.Unk("C09-R2", "RetrieveWithHelpers ⟂ produced-codes", fnName(fn), "", "a return of the retrieve helper does not set Code to a StatusCode constant")
@@ -452,16 +453,16 @@ func ruleRetrieveHelper(c *Check, p *Prog, rule string) {
 	gets := g.Select(IsCall(daM("Get")))
 	var succ []*Node
 	for _, x := range g.Exits {
-		lit := structLitAlloc(x.In.(*ssa.Return).Results[0])
-		if lit == nil {
+		views := p.returnedLits(x.In.(*ssa.Return).Results[0], g.RootCtx, 2)
+		if len(views) != 1 {
 			continue
 		}
-		st := litStores(lit)
-		if v := st["BaseResult.Code"]; len(v) == 1 && TermOf(v[0], g.RootCtx).unconv().Name == success {
+		lv := views[0]
+		if v := lv.Field("BaseResult.Code"); len(v) == 1 && v[0].unconv().Name == success {
 			succ = append(succ, x)
 			// the data returned is the accumulated blobs
-			if d := st["Data"]; len(d) == 1 {
-				dt := TermOf(d[0], g.RootCtx)
+			if d := lv.Field("Data"); len(d) == 1 {
+				dt := d[0]
 				okD := false
 				for _, l := range flattenPhi(dt) {
 					if l.IsCall("append") || l.Op == "make" || (l.Op == "call" && l.Name == "append") {
@@ -499,13 +500,13 @@ func ruleRetrieveHelper(c *Check, p *Prog, rule string) {
 			if !reach[x] {
 				continue
 			}
-			lit := structLitAlloc(x.In.(*ssa.Return).Results[0])
-			if lit == nil {
-				continue
+			var codes []*Term
+			for _, lv := range p.returnedLits(x.In.(*ssa.Return).Results[0], g.RootCtx, 2) {
+				codes = append(codes, lv.Field("BaseResult.Code")...)
 			}
-			for _, v := range litStores(lit)["BaseResult.Code"] {
+			for _, v := range codes {
 				nEx++
-				for _, leaf := range flattenPhi(TermOf(v, g.RootCtx)) {
+				for _, leaf := range flattenPhi(v) {
 					l := leaf.unconv()
 					if l.Op != "const" || l.Name != errCode {
 						name := l.String()
